@@ -162,6 +162,21 @@ def main(tier, replay=None):
         for t in ('', ' ', 'abc', '1x'):
             cases.append({'f': f, 'args': [enc(t), enc(2)]})
             cases.append({'f': f, 'args': [enc(2), enc(t)]})
+    # floats a few units in the last place off the bounds of a domain: inside is a number, outside an error, however close
+    import math
+    edge = []
+    for b in (1.0, -1.0):
+        for k in (1, 2, 5):
+            up = dn = b
+            for _ in range(k):
+                up, dn = math.nextafter(up, math.inf), math.nextafter(dn, -math.inf)
+            edge += [up, dn]
+        edge += [b + 1e-13, b - 1e-13, b + 1e-9, b - 1e-9]
+    edge += [1e-13, -1e-13, 1e-9, -1e-9, 2.0 ** -60, -2.0 ** -60]      # (digit strings of subnormal numbers are too long for TLC's stack)
+    for f in ('ASIN', 'ACOS', 'ATANH', 'ACOTH', 'ACOSH', 'SQRT', 'LN', 'LOG10', 'COT', 'ATAN', 'EXP'):
+        for x in edge:
+            if x != 0:
+                cases.append({'f': f, 'args': [values.flt_exact(x)]})
     obs = fncases.observe(lib, cases, literal=False, twins=True)
     so = suite.observations({'ABS','SQRT','EXP','LN','LOG','LOG10','POWER','SIN','COS','TAN','COT','ASIN','ACOS','ATAN','ACOT','SINH','COSH','TANH','ASINH','ACOSH','ATANH','ACOTH','ATAN2','RADIANS','DEGREES'}, len(obs) + 1)   # the same functions as the repository's own tests call them
     run.extra['calls_from_repository_tests'] = len(so)
